@@ -1373,7 +1373,7 @@ func genSys(r *vh.RNG, maxDocs int) sysCase {
 
 // ------------------------------------------------------------------ oracle agg.e2e (child process)
 
-const e2eRule = "on the implementation only, end to end: real stores (1-3 shards, active and sealed fractions) behind the real proxy search ingestor (setup.TestingEnv: bulk over HTTP, search over gRPC incl. buildSearchResponse/responseToQPR and the proxy-side MergeQPRs), Aggregate as proxyapi calls it == buckets computed directly from the ingested documents; histogram == per-bucket document counts; non-trivial = >= 2 fractions or shards and >= 3 matching documents"
+const e2eRule = "on the implementation only, end to end: real stores (1-3 shards, active and sealed fractions, whole time axis and restricted time ranges in which some group / field tokens do not occur) behind the real proxy search ingestor (setup.TestingEnv: bulk over HTTP, search over gRPC incl. buildSearchResponse/responseToQPR and the proxy-side MergeQPRs), Aggregate as proxyapi calls it == buckets computed directly from the ingested documents; histogram == per-bucket document counts; non-trivial = >= 2 fractions or shards and >= 3 matching documents"
 
 func bulkPost(addr string, docs []string) error {
 	b := bytes.NewBuffer(nil)
@@ -1396,6 +1396,8 @@ type e2eQ struct {
 	a     aggq
 	hist  uint64
 	order seq.DocsOrder
+	// requested time range as offsets (ms) from the base minute; to == 0: the whole time axis
+	from, to uint64
 }
 
 // e2eEnv brings up one environment, ingests the batches (document MIDs are offsets in ms from a base minute a few
@@ -1417,7 +1419,7 @@ func e2eEnv(rep *vh.Report, orc *vh.Oracle, shards int, batches [][]doc, sealAft
 	defer env.StopAll()
 	base := uint64(time.Now().Add(-3 * time.Minute).Truncate(time.Minute).UnixMilli())
 	var rel, all []doc
-	sealed := 0
+	sealed, activeDocs := 0, 0
 	for b, docs := range batches {
 		var lines []string
 		for _, d := range docs {
@@ -1445,15 +1447,12 @@ func e2eEnv(rep *vh.Report, orc *vh.Oracle, shards int, batches [][]doc, sealAft
 			env.WaitIdle()
 			env.SealAll()
 			sealed++
+			activeDocs = 0
+		} else {
+			activeDocs += len(docs)
 		}
 	}
 	env.WaitIdle()
-	nmatch := 0
-	for _, d := range all {
-		if d.match {
-			nmatch++
-		}
-	}
 	for _, q := range queries {
 		a := q.a
 		aq := psearch.AggQuery{Func: fnOf(a.fn), Quantiles: qfloats(a.qs), Interval: seq.MID(a.interval)}
@@ -1463,11 +1462,31 @@ func e2eEnv(rep *vh.Report, orc *vh.Oracle, shards int, batches [][]doc, sealAft
 		if a.fn != "count" && a.fn != "unique" {
 			aq.Field = "f"
 		}
-		qpr, _, _, err := env.Search("m:1", 5, setup.NoFetch(), setup.WithAggQuery(aq), setup.WithOrder(q.order),
-			func(sr *psearch.SearchRequest) { sr.Interval = seq.MID(q.hist) })
+		// a restricted time range: tokens of the group / field that occur only outside it still have a (then empty)
+		// leaf in the OR tree of the aggregation - the leaf's position is the token's label
+		inRange := all
+		ranged := q.to > 0
+		opts := []setup.SearchOption{setup.NoFetch(), setup.WithAggQuery(aq), setup.WithOrder(q.order),
+			func(sr *psearch.SearchRequest) { sr.Interval = seq.MID(q.hist) }}
+		if ranged {
+			inRange = nil
+			for _, d := range all {
+				if d.mid >= base+q.from && d.mid <= base+q.to {
+					inRange = append(inRange, d)
+				}
+			}
+			opts = append(opts, func(sr *psearch.SearchRequest) { sr.From, sr.To = seq.MID(base+q.from), seq.MID(base+q.to) })
+		}
+		qpr, _, _, err := env.Search("m:1", 5, opts...)
 		// the case key uses offsets from the base minute, not wall-clock time
-		key := fmt.Sprintf("e2e shards=%d sealed=%d %s hist=%d order=%d docs=%s", shards, sealed, a.String(), q.hist, q.order, fmtDocs(rel))
-		orc.Case(key, nmatch >= 3 && (shards > 1 || sealed > 0), "fn="+a.fn, fmt.Sprintf("shards=%d", shards), fmt.Sprintf("sealed=%d", sealed), "timeseries="+vh.B(a.interval > 0))
+		key := fmt.Sprintf("e2e shards=%d sealed=%d %s hist=%d order=%d range=%d-%d docs=%s", shards, sealed, a.String(), q.hist, q.order, q.from, q.to, fmtDocs(rel))
+		nmatch := 0
+		for _, d := range inRange {
+			if d.match {
+				nmatch++
+			}
+		}
+		orc.Case(key, nmatch >= 3 && (shards > 1 || sealed > 0 || ranged), "fn="+a.fn, fmt.Sprintf("shards=%d", shards), fmt.Sprintf("sealed=%d", sealed), "timeseries="+vh.B(a.interval > 0), "ranged="+vh.B(ranged), fmt.Sprintf("active-docs=%s", vh.B(activeDocs > 0)))
 		if err != nil {
 			rep.Violate(vh.Violation{Site: "proxy/search/ingestor.go:Search", Class: "agg-error-on-valid-input", What: err.Error(), Replay: []string{key}})
 			continue
@@ -1478,15 +1497,15 @@ func e2eEnv(rep *vh.Report, orc *vh.Oracle, shards int, batches [][]doc, sealAft
 			got = aggregateStr(&qpr.Aggs[0], a.fn, a.qs, skip)
 		}
 		// expectations are computed on the offsets and shifted: bins are aligned to the base minute
-		want := expectedBuckets([][]doc{all}, a, skip)
+		want := expectedBuckets([][]doc{inRange}, a, skip)
 		if got != want {
-			site, class := classify([][]doc{all}, a, skip, got, want)
+			site, class := classify([][]doc{inRange}, a, skip, got, want)
 			rep.Violate(vh.Violation{Site: site, Class: class,
 				What: fmt.Sprintf("end to end %s: got %s want %s", a.String(), shiftMids(got, base), shiftMids(want, base)), Replay: []string{key}})
 		}
 		if q.hist > 0 {
 			wantHist := map[seq.MID]uint64{}
-			for _, d := range all {
+			for _, d := range inRange {
 				if d.match {
 					wantHist[seq.MID(d.mid-d.mid%q.hist)]++
 				}
@@ -1563,7 +1582,12 @@ func e2eChild(o vh.Opts) {
 			} else {
 				a.interval = 0
 			}
-			qs = append(qs, e2eQ{a, uint64([]int{0, 1000, 20000}[rng.Intn(3)]), seq.DocsOrder(rng.Intn(2))})
+			q := e2eQ{a: a, hist: uint64([]int{0, 1000, 20000}[rng.Intn(3)]), order: seq.DocsOrder(rng.Intn(2))}
+			if rng.Chance(3, 5) { // a window inside the minute the documents live in
+				q.from = uint64(rng.Intn(160)) * 250
+				q.to = q.from + uint64(rng.Range(4, 120))*250
+			}
+			qs = append(qs, q)
 		}
 		e2eEnv(rep, orc, shards, batches, sealAfter, qs)
 	}
@@ -1574,7 +1598,7 @@ func e2eChild(o vh.Opts) {
 // replayE2E re-runs one end-to-end case: the documents are split evenly over sealed+1 batches.
 func replayE2E(line string, rep *vh.Report, orc *vh.Oracle) {
 	f := strings.Fields(line)
-	if len(f) != 7 {
+	if len(f) != 8 {
 		return
 	}
 	shards, _ := strconv.Atoi(strings.TrimPrefix(f[1], "shards="))
@@ -1582,7 +1606,9 @@ func replayE2E(line string, rep *vh.Report, orc *vh.Oracle) {
 	a := parseAggq(f[3])
 	hist, _ := strconv.ParseUint(strings.TrimPrefix(f[4], "hist="), 10, 64)
 	ord, _ := strconv.Atoi(strings.TrimPrefix(f[5], "order="))
-	docs := parseDocs(strings.TrimPrefix(f[6], "docs="))
+	var from, to uint64
+	fmt.Sscanf(strings.TrimPrefix(f[6], "range="), "%d-%d", &from, &to)
+	docs := parseDocs(strings.TrimPrefix(f[7], "docs="))
 	nb := sealed + 1
 	var batches [][]doc
 	var sealAfter []bool
@@ -1590,7 +1616,7 @@ func replayE2E(line string, rep *vh.Report, orc *vh.Oracle) {
 		batches = append(batches, docs[len(docs)*b/nb:len(docs)*(b+1)/nb])
 		sealAfter = append(sealAfter, b+1 < nb)
 	}
-	e2eEnv(rep, orc, shards, batches, sealAfter, []e2eQ{{a, hist, seq.DocsOrder(ord)}})
+	e2eEnv(rep, orc, shards, batches, sealAfter, []e2eQ{{a, hist, seq.DocsOrder(ord), from, to}})
 }
 
 // e2eParent re-executes this binary for the end-to-end oracle so that a Fatal / panic / hang inside the stores
